@@ -461,3 +461,21 @@ Example get_index_race :
   (match gi_run 2 (gi_init 3) [0; 1; 2; 1; 2]%nat with
    | Some s => g_index s = 0 /\ pending (g_pcs s) = 0%nat | None => False end).
 Proof. vm_compute. repeat split; reflexivity. Qed.
+
+(* T2: cluster.getIndex as regenerated from the source on every run (Gen/GoFuncs.v; sequential meaning of AddInt64 /
+   StoreInt64, the cell threaded through) is the hand model get_index, and one call by one thread is exactly the
+   composition of the atomic steps of the concurrent LTS (gi_step) that C16_get_index_concurrent is about: one
+   step when the incremented cursor is below n (or n <= 1), AddInt64 then StoreInt64 otherwise. *)
+From HV Require Import Lib.GoLite Gen.GoFuncs Proofs.GoFuncsAtomicProofs.
+Theorem C16_source_getIndex_is_the_model : forall index n,
+  cluster_getIndex index n = GRet (snd (get_index index n), fst (get_index index n)).
+Proof. exact cluster_getIndex_refines. Qed.
+Print Assumptions C16_source_getIndex_is_the_model.
+
+Theorem C16_source_getIndex_steps_of_the_lts : forall n s t last r cell,
+  nth_error (g_pcs s) t = Some (GIdle last) ->
+  cluster_getIndex (g_index s) n = GRet (r, cell) ->
+  exists s', (gi_run n s [t] = Some s' \/ gi_run n s [t; t] = Some s') /\
+             nth_error (g_pcs s') t = Some (GIdle (Some r)) /\ g_index s' = cell.
+Proof. exact gi_steps_are_the_source. Qed.
+Print Assumptions C16_source_getIndex_steps_of_the_lts.
